@@ -39,6 +39,16 @@ def generate(rng, seed, index, tier):
     n = int(rng.integers(1, 41))
     fac = float(rng.choice([1.0, 0.5, 1e-3, 7.0, 1e6]))
     ops = []
+    if rng.random() < 0.08:
+        # a long anti-chain first (a front with many entries), then points that only one old entry dominates
+        N = int(rng.integers(66, 160))
+        order = rng.permutation(N)
+        for i in order:
+            ops.append(["insert", float(i) * fac, float(N - i) * fac])
+        for _ in range(int(rng.integers(1, 6))):
+            i = int(order[int(rng.integers(0, 8))])  # one of the oldest entries
+            ops.append(["insert" if rng.random() < 0.5 else "update", (float(i) + 0.25) * fac, (float(N - i) + 0.25) * fac])
+        n = int(rng.integers(0, 10))
     for _ in range(n):
         if rng.random() < 0.7:
             a, b = float(rng.integers(0, 4)) * fac, float(rng.integers(0, 4)) * fac
